@@ -31,6 +31,7 @@ export function f2Decls() {
     Alias("PU", U(P("string"), P("number"), P("null"))),
     Alias("MIX", U(L("a"), L(1), P("boolean"), P("null"))),
     Alias("List", ObjT([Prop("v", P("number")), Prop("n", U(Ref("List"), P("null")))])),
+    Alias("Tree", ObjT([Prop("kids", ArrT(Ref("Tree")))])),
     Enum("E", [{ name: "A", v: "a" }, { name: "B", v: "b" }]),
     // generic helpers
     Alias("IsStr", Cond(Param("T"), P("string"), L(1), L(2)), ["T"]),
@@ -49,6 +50,8 @@ export function f2Types() {
   // declared members next to an index signature (number / string keys), unions and intersections of such objects
   for (const o of [Ref("ON"), Ref("OS"), Ref("RN"), U(Ref("ON"), ObjT([Prop("a", P("string")), Prop("b", P("number"))])), I(ObjT([Prop("a", P("string"))]), Ref("RN")), I(Ref("ON"), Ref("O1"))]) out.push(Keyof(o));
   out.push(Index(Ref("ON"), L("a")), Index(Ref("ON"), P("number")), Index(Ref("RN"), P("number")), Index(Ref("OS"), L("a")), Index(Ref("OS"), P("string")));
+  // a literal key that only the index signature answers
+  out.push(Index(Ref("RS"), L("a")), Index(Ref("OS"), L("zz")), Index(Ref("OS"), U(L("a"), L("zz"))), Index(Rec(P("string"), L(1)), L("k")), Index(U(Ref("RS"), ObjT([Prop("a", L("x"))])), L("a")));
   for (const o of objs) for (const k of keyArgs) out.push(Index(o, k));
   out.push(Index(Ref("RS"), P("string")), Index(Ref("T1"), L(0)), Index(Ref("T1"), L(1)), Index(Ref("T1"), P("number")), Index(Ref("A1"), P("number")));
   // every literal position around the prefix/rest boundary of tuples with a rest element, unions of positions
@@ -86,6 +89,18 @@ export function f2Types() {
   // template literals that survive a semantic computation (the remainder is materialised from the semantic type)
   for (const t of [Tpl("a", H("number")), Tpl("a", H("string")), Tpl(H("number"), "px"), Tpl("x-", H("string"), "-y"), Tpl(H("boolean"))])
     for (const [other, removed] of [[L(1), L(1)], [P("number"), P("number")], [P("null"), P("null")], [U(L(1), P("boolean")), P("boolean")]]) out.push(Util("Exclude", U(t, other), removed));
+  // the remainder is a union of object types one of which is a structural subtype of another (open-object reading):
+  // both branches have to survive, strict mode tells them apart
+  for (const [x, y] of [
+    [ObjT([Prop("a", P("string"))]), ObjT([Prop("a", P("string")), Prop("b", P("number"))])],
+    [ObjT([Prop("a", P("string"))]), ObjT([Prop("a", P("string")), Prop("b", P("number"), true)])],
+    [ObjT([Prop("a", P("string")), Prop("b", P("number"))]), ObjT([Prop("b", P("number"))])],
+    [ObjT([Prop("a", U(P("string"), P("number")))]), ObjT([Prop("a", P("string")), Prop("z", L(1))])],
+    [ObjT([]), ObjT([Prop("a", P("string"))])],
+  ])
+    out.push(Util("Exclude", U(x, y, P("null")), P("null")), Util("Exclude", U(y, x, P("string")), P("string")));
+  // recursive operands: the remainder is recursive through its own head, below its head, or not at all
+  out.push(Util("Exclude", U(Ref("Tree"), P("string")), P("string")), Util("Exclude", U(Ref("List"), P("number"), P("string")), P("string")), Util("Exclude", U(ObjT([Prop("a", Ref("Tree"))]), P("null")), P("null")), Util("Exclude", U(ArrT(Ref("List")), P("string")), P("string")), Util("Exclude", U(Ref("Tree"), Ref("List")), Ref("List")));
   out.push(Ref("ElemOf", [Ref("A1")]), Ref("ElemOf", [Ref("T1")]));
   out.push(Util("Exclude", Keyof(Ref("O3")), L("a")), Util("Pick", Ref("O3"), Util("Exclude", Keyof(Ref("O3")), L("a"))));
   out.push(Ref("Wrap", [Keyof(Ref("O1"))]), ArrT(Util("Partial", Ref("O1"))), ObjT([Prop("x", Util("Pick", Ref("O1"), L("a"))), Prop("y", Index(Ref("O1"), L("b")), true)]));
